@@ -244,7 +244,7 @@ class InnerSumFunction(Function):
     return self.outer_function.deriv(np.array(x).sum())*np.ones(len(x))
 
   def hess(self, x):
-    return self.outer_function.hess(np.array(x).sum())*np.eye(len(x))
+    return self.outer_function.hess(np.array(x).sum())*np.ones((len(x), len(x)))
 
 class InformationEntropy():
   ''' Information entropy preference function. Entropy is bad.
